@@ -335,6 +335,147 @@ fn case_random(t: &mut Tape, st: &mut Stats) -> Verdict {
     run_condition(&toks, spell, st, "random")
 }
 
+
+/// (re-evaluated) the same if / elseif / while / not lines are reached several times (inside a loop) while the atom
+/// values change between the visits: every visit decides by the evaluation of the values current at that visit.
+fn case_repeated(t: &mut Tape, st: &mut Stats) -> Verdict {
+    check_pool();
+    let mut a = vec![];
+    let mut b = vec![];
+    let mut budget = 4;
+    gen_e(t, 0, &mut budget, &mut a);
+    let mut budget = 4;
+    gen_e(t, 0, &mut budget, &mut b);
+    if a.len() + b.len() > 30 {
+        return Verdict::Discard("over 30 tokens");
+    }
+    // atoms are variables a0.. (numbered across both conditions), re-assigned at the top of every visit
+    let mut n_atoms = 0;
+    let mut written = |toks: &[Tok], n_atoms: &mut usize| {
+        let mut s = String::new();
+        for t in toks {
+            if !s.is_empty() {
+                s.push(' ');
+            }
+            match t {
+                Tok::T | Tok::F => {
+                    s.push_str(&format!("${{a{}}}", *n_atoms));
+                    *n_atoms += 1;
+                }
+                Tok::And => s.push_str("and"),
+                Tok::Or => s.push_str("or"),
+                Tok::Open => s.push('('),
+                Tok::Close => s.push(')'),
+            }
+        }
+        s
+    };
+    let ca = written(&a, &mut n_atoms);
+    let cb = written(&b, &mut n_atoms);
+    let visits = 2 + t.below(4);
+    let with_else = t.chance(1, 4);
+    let looping = t.below(2);
+    let mut script = String::new();
+    match looping {
+        0 => script.push_str(&format!("while tick visits {}\n", visits)),
+        _ => script.push_str(&format!("its = array{}\nfor it in ${{its}}\n", " v".repeat(visits))),
+    }
+    for i in 0..n_atoms {
+        script.push_str(&format!("    a{} = cap\n", i));
+    }
+    script.push_str(&format!("    r = not {}\n    emit not ${{r}}\n", ca));
+    script.push_str(&format!("    if {}\n        emit if\n    elseif {}\n        emit elseif\n", ca, cb));
+    if with_else {
+        script.push_str("    else\n        emit else\n");
+    }
+    script.push_str("    end\n");
+    script.push_str(&format!("    while {}\n        emit while\n        goto :out\n    end\n    :out emit visited\n", cb));
+    script.push_str("end\n");
+    script.push_str("emit done\n");
+    // per-visit values
+    let mut answers = vec![];
+    let mut expected = vec![];
+    let mut decisions = vec![];
+    for _ in 0..visits {
+        let mut truth = vec![];
+        for _ in 0..n_atoms {
+            let want = t.flip();
+            let r = t.raw() as usize;
+            answers.push(if want { TRUTHY[r % TRUTHY.len()].to_string() } else { FALSY[r % FALSY.len()].to_string() });
+            truth.push(want);
+        }
+        let mut k = 0;
+        let mut valued = |toks: &[Tok]| -> Vec<(Tok, bool)> {
+            toks.iter()
+                .map(|t| match t {
+                    Tok::T | Tok::F => {
+                        k += 1;
+                        (*t, truth[k - 1])
+                    }
+                    o => (*o, false),
+                })
+                .collect()
+        };
+        let va = valued(&a);
+        let vb = valued(&b);
+        let (ea, eb) = (eval_ref(&va), eval_ref(&vb));
+        decisions.push((ea, eb));
+        expected.push(format!("not {}", !ea));
+        if ea {
+            expected.push("if".to_string());
+        } else if eb {
+            expected.push("elseif".to_string());
+        } else if with_else {
+            expected.push("else".to_string());
+        }
+        if eb {
+            expected.push("while".to_string());
+        }
+        expected.push("visited".to_string());
+    }
+    expected.push("done".to_string());
+    if decisions.windows(2).any(|w| w[0] == (false, true) && w[1] == (false, true)) {
+        st.class("elseif-taken-on-consecutive-visits");
+    }
+    if decisions.windows(2).any(|w| w[0].0 != w[1].0 || w[0].1 != w[1].1) {
+        st.class("decision-changes-between-visits");
+    }
+    hz_reset();
+    with_hz(|h| h.cap_answers = answers.clone());
+    let out = run_text(&script, sdk_context(), 40_000, None);
+    let trace: Vec<String> = with_hz(|h| h.trace.iter().filter(|e| e.cmd == "emit").map(|e| e.args.join(" ")).collect());
+    let describe = |what: &str, got: serde_json::Value| json!({"script": script, "atom_values_in_order_of_assignment": answers, "decisions_per_visit_(first,second)": decisions, "mismatch": what, "expected_trace": expected, "got": got});
+    if out.fuel_exhausted {
+        return fail("C06/repeated/does-not-terminate", describe("ran out of fuel", json!(null)));
+    }
+    if let Err(e) = &out.result {
+        return fail("C06/repeated/run-error", describe("run failed", json!(format!("{:?}", e))));
+    }
+    if trace != expected {
+        let i = trace.iter().zip(expected.iter()).position(|(x, y)| x != y).unwrap_or(trace.len().min(expected.len()));
+        let which = match expected.get(i).or(trace.get(i)).map(|s| s.split(' ').next().unwrap_or("")) {
+            Some("not") => "not",
+            Some("if") => "if",
+            Some("elseif") | Some("else") => "elseif",
+            Some("while") => "while",
+            _ => match trace.get(i).map(|s| s.split(' ').next().unwrap_or("")) {
+                Some("if") => "if",
+                Some("elseif") | Some("else") => "elseif",
+                Some("while") => "while",
+                _ => "sequence",
+            },
+        };
+        return fail(&format!("C06/repeated/{}", which), describe("trace differs", json!(trace)));
+    }
+    if st.want_sample() {
+        let sc = script.clone();
+        let d = decisions.clone();
+        st.sample(|| json!({"script": sc, "decisions_per_visit": d}));
+    }
+    let changing = decisions.windows(2).any(|w| w[0] != w[1]);
+    Verdict::Pass(if changing { Some(fp(&(&script, &answers))) } else { None })
+}
+
 /// truthiness: single values through `not` and `if`
 fn case_truthiness(t: &mut Tape, st: &mut Stats) -> Verdict {
     check_pool();
@@ -392,7 +533,7 @@ fn case_truthiness(t: &mut Tape, st: &mut Stats) -> Verdict {
 pub fn property() -> Property {
     Property {
         id: "C06",
-        rule: "(grammar) EXHAUSTIVE enumeration of every well-formed token sequence of E := A ((and|or) A)*, A := T | F | ( E? ) up to 11 tokens (quick) / 15 tokens (thorough), each T/F spelled with a truthy/falsy value from a pool and passed through a variable, run through all four consumers (not, if, elseif, while) and compared with a 40-line and-of-ors reference evaluator; (random) longer sequences up to 60 tokens, nesting <= 6; (truthiness) every falsy spelling with case variants, near-misses and arbitrary strings through not/if against the ASCII-case-insensitive table. Non-trivial: sequence with a group or both connectives; distinct by (token sequence, atom values)",
+        rule: "(grammar) EXHAUSTIVE enumeration of every well-formed token sequence of E := A ((and|or) A)*, A := T | F | ( E? ) up to 11 tokens (quick) / 15 tokens (thorough), each T/F spelled with a truthy/falsy value from a pool and passed through a variable, run through all four consumers (not, if, elseif, while) and compared with a 40-line and-of-ors reference evaluator; (random) longer sequences up to 60 tokens, nesting <= 6; (re-evaluated) two conditions A, B of up to ~10 tokens whose atoms are variables re-assigned before each of 2..5 visits of the same `not A` / `if A .. elseif B [else] end` / `while B` lines inside a while or for-in loop: every visit must decide by the values current at that visit; (truthiness) every falsy spelling with case variants, near-misses and arbitrary strings through not/if against the ASCII-case-insensitive table. Non-trivial: sequence with a group or both connectives; distinct by (token sequence, atom values)",
         assumptions: &[
             "atom values are never the keywords and/or/(/) and never a registered command name (documented dispatch rule for the first token)",
             "only well-formed statements are generated",
@@ -424,6 +565,15 @@ pub fn property() -> Property {
                 },
                 case: case_random,
                 min_classes: &[("longer-than-exhaustive-bound", 1000)],
+            },
+            Section {
+                name: "re-evaluated",
+                plan: |t| match t {
+                    Tier::Quick => Plan::Random { cases: 24_000, max_len: 200 },
+                    Tier::Thorough => Plan::Random { cases: 1_200_000, max_len: 240 },
+                },
+                case: case_repeated,
+                min_classes: &[("elseif-taken-on-consecutive-visits", 1000), ("decision-changes-between-visits", 5000)],
             },
             Section {
                 name: "truthiness",
